@@ -13,7 +13,8 @@ otherwise the file is truncated or corrupted after those `k` records).
 `expect` turns the statement into what each call of a script must return:
 * `pcap_read_next` returns the records in file order, then null (well-formed) / null or an
   error object (truncated or corrupted);
-* `pcap_read_all(f)` the remaining records, `pcap_read_all(f, n)` the next `min n remaining`;
+* `pcap_read_all(f)` the remaining records, `pcap_read_all(f, n)` the next `min n remaining` — also on a
+  damaged file: the complete records are delivered, the null / error object comes with the next call;
 * reading back what `pcap_write` wrote reproduces the records handed out so far;
 * where the statement is silent (after the first null/error on a damaged file, negative `n`,
   the bytes of the written file) the expectation is `any`.
@@ -172,7 +173,9 @@ def expectStep (s : St) : Call → Expect × St
     | [] => if s.tail = .clean then (.null, s) else (.nullOrErr, { s with lost := true })
   | .all none =>
     if s.lost then (.any, s) else
-    if s.tail = .corrupt then (.pktsOrErr s.rest, { s with lost := true })
+    -- "yields exactly those k records and then null or an error object": the complete records are
+    -- delivered; with none left, a damaged file gives the empty array, null or an error object
+    if s.rest.isEmpty && s.tail = .corrupt then (.pktsOrErr [], { s with lost := true })
     else (.pkts s.rest, { s with rest := [], got := s.got ++ s.rest })
   | .all (some n) =>
     if s.lost then (.any, s) else
@@ -180,7 +183,7 @@ def expectStep (s : St) : Call → Expect × St
     else
       let k := n.toNat
       if k ≤ s.rest.length then (.pkts (s.rest.take k), { s with rest := s.rest.drop k, got := s.got ++ s.rest.take k })
-      else if s.tail = .corrupt then (.pktsOrErr s.rest, { s with lost := true })
+      else if s.rest.isEmpty && s.tail = .corrupt then (.pktsOrErr [], { s with lost := true })
       else (.pkts s.rest, { s with rest := [], got := s.got ++ s.rest })
   | .write => (.any, s)
   | .readBack => if s.lost then (.any, s) else (.pkts s.got, s)
